@@ -491,9 +491,15 @@ class BuiltinMixin(object):
       self.list_set(st, res, self.list_len(st, it), self.list_items(st, it))
       return [(st, res)]
     seq, el = self.iter_as_list(st, it)
-    if isinstance(it, VRef) and it.cls in ('dict', 'set'):
+    from pyvc.engine3 import VIterView
+    keyview = isinstance(it, VIterView) and it.how == 'keys' and isinstance(it.base, VRef) and it.base.cls == 'dict'
+    if (isinstance(it, VRef) and it.cls in ('dict', 'set')) or keyview:
       res = self.alloc(st, 'list')
       self.list_set(st, res, self.list_len(st, seq), self.list_items(st, seq))
+      d = it.base if keyview else it
+      # the list holds exactly the keys of d at this moment: membership in it is membership in that domain (as long as the
+      # list is not mutated afterwards, which `contains` checks syntactically)
+      st.pyheap[(self.oid_of(res), '$keys_of')] = (self.dict_dom(st, d), getattr(d, 'keykind', None), self.list_len(st, res), self.list_items(st, res))
       return [(st, res)]
     raise Unsupported('list() of %r' % (it,))
 
@@ -579,7 +585,12 @@ class BuiltinMixin(object):
       r = range(*[t.as_long() for t in ts])
       if len(r) <= 64:
         return [(st, VTuple([VInt(i) for i in r]))]
-    raise Unsupported('range with symbolic / large bounds needs a loop invariant')
+    if len(ts) <= 2:
+      # symbolic / long range with step 1: an integer sequence kept symbolic (length term, element function)
+      from pyvc.engine3 import VIterView
+      lo, hi = (z3.IntVal(0), ts[0]) if len(ts) == 1 else ts
+      return [(st, VIterView('intseq', None, (z3.If(hi > lo, hi - lo, z3.IntVal(0)), lambda i, lo=lo: lo + i)))]
+    raise Unsupported('range with a step and symbolic / large bounds')
 
   def b_repr(self, st, args, kwargs):
     return [(st, VStr(fresh('repr', z3.StringSort())))]
